@@ -332,7 +332,12 @@ def run_case(proc, case, chooser, trace=None):
                         say("child %d (pid %d) exits, status 0x%04x" % (c.i, c.pid, c.status))
                     elif kind in ("reg", "rereg"):
                         c = children[ev[1]]
-                        k = rk[c.i] if kind == "reg" else ("wn" if c.regs[0].kind == "cb" else "cb")
+                        if kind == "reg":
+                            k = rk[c.i]
+                        elif c.regs[0].kind == "wr" or (c.regs[0].kind == "cb" and rk[c.i] == "wr"):
+                            k = "cb"
+                        else:
+                            k = "wr" if c.i % 2 == 0 else "wn"     # a late wait_for_exit() (default raise_error)
                         say("%s child %d: %s" % (kind, c.i, {"cb": "set_exit_callback",
                             "wr": "wait_for_exit()", "wn": "wait_for_exit(raise_error=False)",
                             "cbr": "set_exit_callback(callback that registers again)"}[k]))
